@@ -461,7 +461,7 @@ DescribeStuck()
   std::string s;
   for (int i = 0; i < G.n; ++i) {
     auto &t = G.th[i];
-    if (t.st == S_FINISHED) continue;
+    if (t.st == S_FINISHED || t.st == S_GATED) continue;
     char buf[256];
     snprintf(buf, sizeof buf, " T%d[%s %s: waits at %s %s last=0x%lx]", i,
              t.st == S_BLOCKED ? "blocked" : "runnable", t.call, kKindName[t.pend.kind],
@@ -534,7 +534,8 @@ Choose(int cur)
         for (int i = 0; i < G.n; ++i)
           if (G.th[i].st == S_BLOCKED) {
             if (!labels.empty()) labels += "|";
-            labels += G.th[i].call;
+            std::string c = G.th[i].call;
+            labels += c.substr(0, c.find('@'));
           }
         RecordViolation("C02", "DEADLOCK:" + labels,
                         "no thread can make progress:" + DescribeStuck(), true);
